@@ -208,7 +208,112 @@ def run_c18(mf, tier):
     return res
 
 
+def run_load(lengths):
+    """C04-O3 / C32-O2: IdMap::load rebuilds the node table from the pages: for a table of N records it returns exactly N entries,
+    entry i decoded from page start + i/512 at offset (i % 512) * 16, maps every non-zero external id to its position and hands out
+    N as the next internal id - for N next to the page boundary (511, 512, 513) as well."""
+    def run(mf, tier):
+        from ..bytesmodel import BYTES_MODELS, buf_of
+        from ..vecmodel import VEC_MODELS
+        from ..symex import STD_CMP_MODELS
+        PAGE = 8192
+        fn = mf.find(r"idmap\.rs[^>]*>::load\(_1: &mut Pager")
+        failed, n, queries, stime = [], 0, 0, 0.0
+        for N in lengths:
+            # two node-table pages: a fixed pattern with symbolic records at the interesting slots
+            sym_slots = sorted({0, 1, 510, 511, 512, N - 1} & set(range(max(N, 1))))
+            recs = {}
+            pages = {4: [], 5: []}
+            for i in range(1024):
+                if i in sym_slots:
+                    ext, lab, fl = z3.BitVec("ext%d" % i, 64), z3.BitVec("label%d" % i, 32), z3.BitVec("flags%d" % i, 32)
+                else:
+                    ext, lab, fl = bv(1000 + i, 64), bv(i % 5, 32), bv(0, 32)
+                recs[i] = (ext, lab, fl)
+                bs = [z3.simplify(z3.Extract(8 * k + 7, 8 * k, ext)) for k in range(8)] + [z3.simplify(z3.Extract(8 * k + 7, 8 * k, lab)) for k in range(4)] + \
+                     [z3.simplify(z3.Extract(8 * k + 7, 8 * k, fl)) for k in range(4)]
+                pages[4 + i // 512] += bs
+
+            def m_start(ex, st, a, dst, callee):
+                return [(Enum("Some", [Struct("PageId", {0: bv(4, 64)})]), [], None)]
+
+            def m_len(ex, st, a, dst, callee, N=N):
+                return [(bv(N, 64), [], None)]
+
+            def m_read_page(ex, st, a, dst, callee):
+                pid = a[1]
+                for _ in range(3):
+                    if isinstance(pid, Ref):
+                        pid = deref_val(ex, st, pid)
+                    if isinstance(pid, (Struct, Enum)) and len(pid.fields) == 1:
+                        pid = pid.fields[0]
+                pid = z3.simplify(pid)
+                if not z3.is_bv_value(pid) or pid.as_long() not in pages:
+                    return [(Enum("Err", [Enum("PageNotAllocated", [pid])]), [], "read of page %s" % pid)]
+                return [(Enum("Ok", [PyVec(list(pages[pid.as_long()]))]), [], None)]
+
+            def m_map_new(ex, st, a, dst, callee):
+                return [(PyVec(), [], None)]
+
+            def m_map_insert(ex, st, a, dst, callee):
+                v = deref_val(ex, st, a[0])
+                ex._write(st, a[0].root, list(a[0].projs), PyVec(list(v.items) + [Tup([a[1], a[2]])]))
+                return [(Enum("None"), [], None)]
+            models = [(r"^Pager::i2e_start_page$", m_start), (r"^Pager::i2e_len$", m_len), (r"^Pager::read_page$", m_read_page),
+                      (r"^HashMap::<u64, u32>::with_capacity$", m_map_new), (r"^HashMap::<u64, u32>::insert$", m_map_insert)] + \
+                BYTES_MODELS + VEC_MODELS + STD_CMP_MODELS + GENERIC_MODELS
+            st = State()
+            st.env["_1"] = Opaque("pager")
+            ex = Exec(fn, models, bound=N + 4, mf=mf, inline=r".", max_paths=50)
+            for p in ex.run("bb0", st):
+                if p.kind == "panic":
+                    failed.append("IdMap::load can panic for a table of %d records: %s" % (N, str(p.info)[:60]))
+                    continue
+                if p.kind == "bound":
+                    raise Unsupported("IdMap::load cut by the loop bound")
+                if p.kind != "return":
+                    continue
+                n += 1
+                if not (isinstance(p.ret, Enum) and p.ret.variant == "Ok"):
+                    failed.append("IdMap::load fails for a table of %d records" % N)
+                    continue
+                idm = p.ret.fields[0]
+                e2i, i2l, i2e, ilen = idm.fields[0], idm.fields[1], idm.fields[2], idm.fields[4]
+                if not ex.entails(p.pc, ilen == N):
+                    failed.append("the loaded table does not report the stored record count (next internal id) for N = %d" % N)
+                if len(i2e.items) != N or len(i2l.items) != N:
+                    failed.append("a table of %d records is loaded as %d records / %d label lists" % (N, len(i2e.items), len(i2l.items)))
+                    continue
+                for i in sorted(set(sym_slots) | {N // 2}):
+                    if i >= N:
+                        continue
+                    r = i2e.items[i]
+                    ext, lab, fl = recs[i]
+                    if not ex.entails(p.pc, z3.And(r.fields[0] == ext, r.fields[1] == lab, r.fields[2] == fl)):
+                        failed.append("record %d of a %d-record table is not decoded from its slot (page start + i/512, offset (i %% 512) * 16)" % (i, N))
+                    ls = i2l.items[i]
+                    if not (isinstance(ls, PyVec) and len(ls.items) == 1 and ex.entails(p.pc, ls.items[0] == lab)):
+                        failed.append("the label list of node %d is not rebuilt from its record" % i)
+                    hits = [kv for kv in e2i.items if ex.entails(p.pc, z3.And(kv.fields[0] == ext, kv.fields[1] == i))]
+                    if not hits and ex.feasible(p.pc, ext != 0):
+                        failed.append("a stored external id is not mapped back to its internal id after load (record %d of %d)" % (i, N))
+            queries += ex.queries
+            stime += ex.solver_time
+        res = {"paths": n, "queries": queries, "solver_time_s": round(stime, 3),
+               "sample": ["node tables of %s records over two pages; records 0, 1, 510, 511, 512, N-1 symbolic, the rest a fixed pattern" % (list(lengths),)],
+               "functions": ["idmap::IdMap::load, idmap::read_i2e_record, idmap::i2e_location, I2eRecord::decode"]}
+        if failed:
+            res.update({"status": "fail", "failed": sorted(set(failed)), "reason": "; ".join(sorted(set(failed)))[:500]})
+        else:
+            res["status"] = "pass"
+        return res
+    return run
+
+
 TARGETS = [
+    {"name": "c04_o3_q_node_table_load_around_page_boundary", "crate": "nervusdb-storage", "run": run_load([0, 1, 2, 512])},
+    {"name": "c32_o2_q_node_table_load_around_page_boundary", "crate": "nervusdb-storage", "run": run_load([0, 1, 2, 512])},
+    {"name": "c04_o3_t_node_table_load_more_lengths", "crate": "nervusdb-storage", "run": run_load([3, 511, 513, 1024])},
     {"name": "c04_o1_q_create_node_one_label_persisted", "crate": "nervusdb-storage", "run": run_c04(1)},
     {"name": "c04_o1_q_create_node_two_labels_persisted", "crate": "nervusdb-storage", "run": run_c04(2)},
     {"name": "c04_o1_t_create_node_three_labels_persisted", "crate": "nervusdb-storage", "run": run_c04(3)},
